@@ -197,7 +197,7 @@ func (s *StsdBox) EncodeSW(sw bits.SliceWriter) error {
 			return err
 		}
 	}
-	return nil
+	return sw.AccError()
 }
 
 // Info - write box-specific information
